@@ -40,12 +40,12 @@ FlagIdx(f) ==
     [] f = "D_LOCK_GARBAGE" -> 7 [] f = "D_GGLW_PARSE" -> 8 [] f = "D_CAS_SHAPED" -> 9 [] f = "D_NULL_RELOAD" -> 10 [] f = "D_ERR_CLOSES" -> 11 [] f = "D_UNSUB_TRAIL" -> 12
     [] f = "D_DISC_NOT_FORWARDED" -> 13 [] f = "D_SYNC_DROPS_REGS" -> 14 [] f = "D_IMPORT_VERSION" -> 15
     [] f = "D_FLAGS_NO_PERSIST" -> 16 [] f = "D_REDB_VERSION" -> 17
-    [] f = "D_UNSUBLS_ASYNC" -> 18 [] f = "D_PUB_BUFFER" -> 19 [] OTHER -> 20
-NFlags == 20
+    [] f = "D_UNSUBLS_ASYNC" -> 18 [] f = "D_PUB_BUFFER" -> 19 [] f = "D_CAS_OVERFLOW" -> 20 [] OTHER -> 21
+NFlags == 21
 FlagNames == <<"D_CAS_GHOST", "D_HASH_ZERO", "D_LAZY_HASH", "D_SYS_WILDCARD", "D_PUBLISH_SYS",
                "D_IMPORT_NO_LS", "D_LOCK_GARBAGE", "D_GGLW_PARSE", "D_CAS_SHAPED", "D_NULL_RELOAD",
                "D_ERR_CLOSES", "D_UNSUB_TRAIL", "D_DISC_NOT_FORWARDED", "D_SYNC_DROPS_REGS", "D_IMPORT_VERSION",
-               "D_FLAGS_NO_PERSIST", "D_REDB_VERSION", "D_UNSUBLS_ASYNC", "D_PUB_BUFFER", "D_OTHER">>
+               "D_FLAGS_NO_PERSIST", "D_REDB_VERSION", "D_UNSUBLS_ASYNC", "D_PUB_BUFFER", "D_CAS_OVERFLOW", "D_OTHER">>
 Flag(f) == f \in Dev /\ TLCSet(FlagIdx(f), TRUE)
 
 INT  == "int"                     \* INTERNAL_CLIENT_ID
@@ -180,6 +180,10 @@ LsNotify(S, lsn) ==
 (***************************************************************************)
 (* Store::insert (store.rs:745-843)                                        *)
 (***************************************************************************)
+\* CAS versions are u64.  TLC's integers are 32 bit: the harness maps the top of the u64 range
+\* onto the top of this one (u64::MAX <-> VerTop, u64::MAX - 1 <-> VerTop - 1, ...).
+VerTop == 2000000000
+E_PANIC == -2
 Decide(cur, new, force) ==
   IF cur.k = "none" THEN
     IF new.k = "plain" THEN [err |-> -1, existed |-> FALSE, changed |-> TRUE, e |-> new]
@@ -194,7 +198,11 @@ Decide(cur, new, force) ==
       IF force THEN [err |-> -1, existed |-> TRUE, changed |-> cur.v # new.v, e |-> PlainE(new.v)]
       ELSE [err |-> E_CAS]
     ELSE IF force \/ cur.n = new.n
-      THEN [err |-> -1, existed |-> TRUE, changed |-> cur.v # new.v, e |-> CasE(new.v, new.n + 1)]
+      THEN IF new.n >= VerTop
+             \* the largest version cannot be raised: `v + 1` (store.rs:827,833) overflows - a panic of the
+             \* core task in a debug build, version 0 in a release build  [D_CAS_OVERFLOW]
+             THEN [err |-> IF Flag("D_CAS_OVERFLOW") THEN E_PANIC ELSE E_CASVER]
+             ELSE [err |-> -1, existed |-> TRUE, changed |-> cur.v # new.v, e |-> CasE(new.v, new.n + 1)]
       ELSE [err |-> E_CASVER]
 
 \* returns [err, st, len, changed, lsn]
@@ -373,7 +381,8 @@ DoWrite(S, path, new, c, force) ==
   ELSE IF HasWildcard(path) THEN Res(S, Err(FirstWildErr(path)))
   ELSE IF RegistrationUnparsable(path, new.v) /\ ~Flag("D_GGLW_PARSE") THEN Res(S, Err(E_IO))
   ELSE LET i == Insert(S, path, new, force) IN
-    IF i.err # -1 THEN Res(WithStore(S, i.st, i.len), Err(i.err))
+    IF i.err = E_PANIC THEN [Res(S, Down) EXCEPT !.s.down = TRUE]
+    ELSE IF i.err # -1 THEN Res(WithStore(S, i.st, i.len), Err(i.err))
     ELSE IF RegistrationUnparsable(path, new.v)
       \* as-is: the value is already in the store when the parse error is returned;
       \* nobody is notified
